@@ -12,7 +12,8 @@ Require DSG.GenCli.
 (* the regenerated tables are the ones the model is written for *)
 Theorem C20_tables :
   DSG.GenCli.gen_cli_understood = true /\
-  DSG.GenCli.gen_cli_flags = [s_version; s_help; s_h; s_e; s_eval; s_l; s_lint] /\
+  (* the SET of option spellings (their order inside one `||` test is immaterial; run_cli itself is tied by Src_cli_dispatch) *)
+  same_elems DSG.GenCli.gen_cli_flags [s_version; s_help; s_h; s_e; s_eval; s_l; s_lint] = true /\
   DSG.GenCli.gen_cli_min_args = 2 /\
   DSG.GenCli.gen_cli_err_status <> 0 /\
   DSG.GenCli.gen_lint_order = [[108;97;98;101;108]; [99;111;109;109;97;110;100]; [111;117;116;112;117;116]].
